@@ -52,6 +52,51 @@ def problem_class(p):
     return re.sub(r"\s+", " ", re.sub(r"\"[^\"]*\"|'[^']*'|\b\d+\b", "_", p.split(":")[0])).strip()
 
 
+PLACEHOLDER = "__internal_typename"
+
+
+def flat(sel, path, keep_placeholder):
+    """fields of a selection set in document order, inline fragments dissolved: (response path, name, arguments, directives)"""
+    out = []
+    for s in sel:
+        if s["k"] == "field":
+            key = s["alias"] or s["name"]
+            if key == PLACEHOLDER and not keep_placeholder:
+                continue
+            out.append(("/".join(path + [key]), s["name"], json.dumps(s["args"], sort_keys=True), json.dumps(s["dirs"], sort_keys=True)))
+            out += flat(s["sel"], path + [key], keep_placeholder)
+        else:
+            out += flat(s["sel"], path, keep_placeholder)
+    return out
+
+
+def canon_category(nd, base_nd):
+    """coarse name of the difference between two normalized operations that should have been printed identically"""
+    if not nd or not base_nd or len(nd["ops"]) != 1 or len(base_nd["ops"]) != 1:
+        return "other"
+    a, b = nd["ops"][0], base_nd["ops"][0]
+    if json.dumps(a["sel"], sort_keys=True) == json.dumps(b["sel"], sort_keys=True) and a["dirs"] == b["dirs"]:
+        return "variable-definitions"          # same selections, different variable definitions (left-over definitions keep their names)
+    def uniq(xs):
+        seen, out = set(), []
+        for x in xs:
+            if x not in seen:
+                seen.add(x)
+                out.append(x)
+        return out
+
+    def novars(xs):
+        return [(p, n, re.sub(r'"t": "v", "n": "[^"]*"|"n": "[^"]*", "t": "v"', '"t": "v"', a1), d) for (p, n, a1, d) in xs]
+
+    if uniq(flat(a["sel"], [], True)) == uniq(flat(b["sel"], [], True)):
+        return "inline-fragment-structure"     # same fields in the same order, different inline fragment wrappers / type conditions
+    if uniq(flat(a["sel"], [], False)) == uniq(flat(b["sel"], [], False)):
+        return "typename-placeholder"          # ... and a __internal_typename placeholder on one side only
+    if uniq(novars(flat(a["sel"], [], False))) == uniq(novars(flat(b["sel"], [], False))):
+        return "variable-sharing"              # same fields, the arguments use variables that are shared differently
+    return "other"
+
+
 def features(c):
     """coarse features of a case for violation keys: the rewrite steps that led to it (sorted, de-duplicated)"""
     return "+".join(sorted(set(c["steps"]))) or "base"
@@ -102,7 +147,38 @@ def run(ctx):
             what, c["schema"], c["base"], c["vi"], "/".join(c["steps"]) or "-", r["text"], r["vars"], r["ntext"], r["nvars_raw"],
             json.dumps(r["mapping"], sort_keys=True)), obj)
 
-    # ---- 3a. Go-side checks that need no oracle ------------------------------------------------------
+    # ---- 4. TLC: NormValid and NormPreservesMeaning ------------------------------------------------
+    nchunks = max(1, min(6, len(trace) // 300))
+    chunks = [trace[i::nchunks] for i in range(nchunks)]
+    bad = {}
+    with concurrent.futures.ThreadPoolExecutor(max_workers=nchunks) as ex:
+        for b in ex.map(lambda a: run_trace(ctx, a[0], a[1]), list(enumerate(chunks))):
+            bad.update(b)
+    ndocs = {t["id"]: t["ndoc"] for t in trace}
+
+    def cause(cid):
+        """name of what TLC found wrong with the normalized operation of this case ('-' = nothing)"""
+        b = bad.get(cid)
+        if not b:
+            return "-"
+        names = sorted(b["tokens"])
+        if b["universes"]:
+            names.append("meaning:nested-variable-default-ignored" if b["alt"] else "meaning:changed")
+        return "+".join(names)
+
+    for cid in sorted(bad):
+        c, r, b = by_id[cid], results[cid], bad[cid]
+        for t in sorted(b["tokens"]):
+            report("norm-invalid:%s" % t, "the normalized operation violates the specification's validation rules (%s)" % t, c, r,
+                   {"violated": b["tokens"]})
+        if not b["valid"] and not b["tokens"]:
+            report("norm-invalid:not-executable", "the normalized operation cannot be executed (no operation / no root type)", c, r)
+        if b["universes"]:
+            report("meaning-changed:%s" % ("nested-variable-default-ignored" if b["alt"] else "other"),
+                   "the normalized operation with the normalized variables produces a different response than the original on probe "
+                   "universes %s (reference execution GQLExec)%s" % (b["universes"], "; the difference is the one produced by ignoring the default "
+                   "value of a variable nested in a list / object literal" if b["alt"] else ""), c, r, {"universes": b["universes"]})
+    # ---- 5. Go-side checks that need no oracle ------------------------------------------------------
     rejected = collections.Counter()
     for c in cases:
         r = results[c["id"]]
@@ -117,7 +193,8 @@ def run(ctx):
                        "the operation passed validation but the rest of the admission sequence failed at stage %s: %s" % (r["stage"], r["msg"]), c, r)
             continue
         for p in r["problems"]:
-            report("%s:%s" % (problem_class(p), features(c)), "Go-side equality broken: %s" % p, c, r,
+            # an idempotence failure is keyed by what is wrong with the first normalized operation (if anything)
+            report("%s:%s" % (problem_class(p), cause(c["id"])), "Go-side equality broken: %s" % p, c, r,
                    {"second_run_text": r["text2"], "second_run_variables": r["nvars2"]})
     # canonical printed form over each orbit: every canon member prints like its base, with equal variables
     orbits = collections.defaultdict(list)
@@ -136,30 +213,14 @@ def run(ctx):
             ncanon += 1
             r = results[m["id"]]
             if r["ntext"] != rr["ntext"]:
-                report("canonical-form:operation:%s" % features(m),
-                       "an operation that differs from its base only in %s normalizes to a different printed form; base prints\n%s" % (
-                           "/".join(m["steps"]), rr["ntext"]), m, r, {"base_normalized": rr["ntext"], "base_text": rr["text"]})
+                cat = canon_category(ndocs.get(m["id"]), ndocs.get(root[0]["id"]))
+                report("canonical-form:operation:%s" % cat,
+                       "an operation that differs from its base only in %s normalizes to a different printed form (%s); base prints\n%s" % (
+                           "/".join(m["steps"]), cat, rr["ntext"]), m, r, {"base_normalized": rr["ntext"], "base_text": rr["text"]})
             elif r["nvars"] != rr["nvars"]:
-                report("canonical-form:variables:%s" % features(m),
+                report("canonical-form:variables:%s" % cause(m["id"]),
                        "an operation that differs from its base only in %s normalizes to the same printed form but different variables; base has %s" % (
                            "/".join(m["steps"]), rr["nvars"]), m, r, {"base_normalized_variables": rr["nvars"]})
-    # ---- 4. TLC: NormValid and NormPreservesMeaning ------------------------------------------------
-    nchunks = max(1, min(6, len(trace) // 300))
-    chunks = [trace[i::nchunks] for i in range(nchunks)]
-    bad = {}
-    with concurrent.futures.ThreadPoolExecutor(max_workers=nchunks) as ex:
-        for b in ex.map(lambda a: run_trace(ctx, a[0], a[1]), list(enumerate(chunks))):
-            bad.update(b)
-    for cid in sorted(bad):
-        c, r, b = by_id[cid], results[cid], bad[cid]
-        if not b["valid"]:
-            for t in sorted(b["tokens"]) or ["not-executable"]:
-                report("norm-invalid:%s" % t, "the normalized operation violates the specification's validation rules (%s)" % t, c, r,
-                       {"violated": b["tokens"]})
-        else:
-            report("meaning-changed:%s" % features(c),
-                   "the normalized operation with the normalized variables produces a different response than the original on probe "
-                   "universes %s (reference execution GQLExec)" % b["universes"], c, r, {"universes": b["universes"]})
     admitted = sum(1 for c in cases if results[c["id"]]["accept"])
     ctx.coverage.update({
         "traces_validated_against_impl": len(trace),
@@ -183,6 +244,6 @@ def run(ctx):
     ctx.assumptions += [
         "schemas: the 3 catalog schemas; operations: the corpus of spec/core/GQLCorpus.tla and its rewrite orbits (<= 3 steps)",
         "'same response on any backend' is evaluated on the probe universes of GQLExec (leaf value = (object, field, coerced arguments))",
-        "responses are compared as JSON values (unordered objects); the alias __internal__typename_placeholder is ignored",
+        "responses are compared as JSON values (unordered objects); the alias __internal_typename (planner convention) is ignored",
         "(nq, nv) are re-read from the printed normalized operation with gqlparser; harness/internal/admit mirrors Execute (hash-pinned)",
     ]
